@@ -19,7 +19,7 @@ LEVEL_TEXT = ("bounded, solver-decided: for every harness the SAT solver shows t
 CLAIMED = {
     "C01": dict(
         text="Header layout and round trip over all field values at full width against an independent spec table; every synchronous emission route (to_vec, write_to, write_message, write_message_streaming, into_wire_bytes) pairwise through that oracle at small constant payload sizes and every body-capacity relation, also into a short-writing sink; builder; parse-back; TCP-vs-WebSocket response framing parity; the async routes (write_message_async, async_server::write_view_response) driven by a two-line executor over tokio's in-memory AsyncWrite for Vec<u8>.",
-        note="Bounds: per route instance |query| <= 2 and |body| <= 3 (quick) or up to 5 and 8 (thorough); sizes are per-instance constants, contents and all 11 header fields symbolic. Outside: payloads larger than the instances, async writers over real sockets (only the in-memory writer is driven), interop fixtures, bytes from running servers.",
+        note="The typed-slice streaming writer vs. the buffered builder (2 f64 elements) is included through the C08 bulk harness registered under both properties. Bounds: per route instance |query| <= 2 and |body| <= 3 (quick) or up to 5 and 8 (thorough); sizes are per-instance constants, contents and all 11 header fields symbolic. Outside: payloads larger than the instances, async writers over real sockets (only the in-memory writer is driven), interop fixtures, bytes from running servers.",
         ref="DESIGN.md §4 C01"),
     "C02": dict(
         text="Header::decode, Message/MessageView::from_slice(_exact) total on fully symbolic buffers (<= 56 bytes, every length incl. wrapping 64-bit sums) with an exact accept/reject oracle; read_message on hostile streams (symbolic contents, truncation, short read, I/O error) and with never-allocatable declared sizes under an allocator-failure stub.",
@@ -47,7 +47,7 @@ CLAIMED = {
         ref="DESIGN.md §4 C09"),
     "C10": dict(
         text="Two sequential kernels: (1) TrailerHold forwards exactly all but the last N bytes for symbolic streams across arbitrary write splits, returns exactly the last N bytes as trailer, and rejects a stream shorter than N without forwarding anything; (2) the TempFile guard under filesystem stubs with a trace oracle: the temp file is either published by exactly one rename(temp -> destination) or removed (drop without commit, failed rename), and no other operation ever names the destination path.",
-        note="NARROW: write_file's ordering (final chunk seen, fill ok, flush, fsync BEFORE commit), the verified / trailer-verified pullers around the guard, real crash points, the real filesystem and the async pullers are outside; a change confined to write_file or to a puller is not detected. (A commit-protocol harness with filesystem stubs was built and abandoned: Kani 0.68 hands back garbage for the return value of a stubbed function whose Result<_, RepeError> the caller drops immediately, producing spurious double-free reports; see DESIGN.md §2.)",
+        note="NARROW: filesystem stubs: the destination is absent or a regular file as chosen, the temporary file a regular file of the same length while it exists; write_file's ordering (final chunk seen, fill ok, flush, fsync BEFORE commit), the verified / trailer-verified pullers around the guard, real crash points, the real filesystem and the async pullers are outside; a change confined to write_file or to a puller is not detected. (A commit-protocol harness with filesystem stubs was built and abandoned: Kani 0.68 hands back garbage for the return value of a stubbed function whose Result<_, RepeError> the caller drops immediately, producing spurious double-free reports; see DESIGN.md §2.)",
         ref="DESIGN.md §4 C10"),
     "C11": dict(
         text="One arbitrary operation (record_ack, record_sent, advance_to_file, cancel, request_resume, wait_for_credit with expired deadline, the documented producer step) from an arbitrary state satisfying acked <= sent, all values full 64-bit: an inductive step that covers histories of any length.",
@@ -71,7 +71,7 @@ CLAIMED = {
         ref="DESIGN.md §4 C17"),
     "C19": dict(
         text="(1) the blocking Fleet's retry loop (both copies: call_message_with_retry, call_json_with_retry) with the real ensure_connected / invalidate_client / is_retryable_error, over a symbolic per-attempt outcome script (refused; closed / reset / silent until timeout with any transport kind; undecodable reply; application error; success), max_attempts symbolic in 1..=3 (1..=4 in the thorough tier), optionally a cached connection that died while idle: attempts <= max_attempts, a further attempt only after a transport failure, the result is the last attempt's reply or error, a failed connection is never reused, and no client stays cached after a transport failure. (2) is_retryable_error in both fleets over all stable io::ErrorKinds and the non-I/O error variants.",
-        note="PARTIAL: the node's sockets are an environment model (Client::connect and the per-call exchange are scripted stubs; environment contract D = which error kinds a dead node produces, validated once natively by findings/C19_idle_close_demo.rs); the AsyncFleet loop (tokio clients cannot be constructed under Kani) is covered only through its is_retryable_error; tag filtering and broadcast fan-out are outside; more than one node and more than 4 attempts are outside the bound.",
+        note="PARTIAL: the JSON retry loop is driven with params = Some(_) only (the param-less arm decodes the reply with serde_json and is outside); the node's sockets are an environment model (Client::connect and the per-call exchange are scripted stubs; environment contract D = which error kinds a dead node produces, validated once natively by findings/C19_idle_close_demo.rs); the AsyncFleet loop (tokio clients cannot be constructed under Kani) is covered only through its is_retryable_error; tag filtering and broadcast fan-out are outside; more than one node and more than 4 attempts are outside the bound.",
         ref="DESIGN.md §4 C19"),
 }
 
